@@ -62,8 +62,14 @@ def step (s : St') (op : List String) (impl : String) : LineOut St' :=
   | "conc" :: _ =>
     -- obs s0,s1,…|leave:ok,join:refused,…   (state samples in observation order)
     match (String.ofList (impl.toList.drop 4)).splitOn "|" with
-    | [samples, _results] =>
+    | [samples, results] =>
       if !impl.startsWith "obs " then { state := s, model := some "obs …" } else
+      -- a call that panicked: the recorded finding (Leave racing Shutdown) or anything else
+      if (results.splitOn ",").any (fun r => r.startsWith "leave:panic-leave-after-shutdown") then
+        { state := s, model := none, monitor := some ("leave-shutdown-panic", "Leave() panicked inside memberlist (\"leave after shutdown\") because Shutdown() ran concurrently") }
+      else if (results.splitOn ",").any (fun r => (r.splitOn ":panic-").length > 1) then
+        { state := s, model := none, monitor := some ("panic", results) }
+      else
       let rs := (samples.splitOn ",").filter (· ≠ "")
       let m := rs.foldl (fun (acc : Nat × Option (String × String)) x =>
         match acc.2, rankOf? x with
